@@ -87,19 +87,18 @@ def Circ.opsIn (c : Circ) (r : Region) : List Op :=
 /-- `straighten` leaves every timeline and the op multiset unchanged, keeps `Inv`,
 and changes the number of cycles by the reported amount. -/
 def validStraighten (c c' : Circ) (net : Int) : Option String :=
-  if !c'.invB then some "inv"
-  else if c'.radixes != c.radixes then some "radixes"
+  if c'.radixes != c.radixes then some "radixes"
   else if !sameTimelines c.numQudits c.iter c'.iter then some "timelines"
   else if !permOps c.ops c'.ops then some "ops"
   else if (c'.numCycles : Int) != (c.numCycles : Int) + net then some "net_new_cycles"
+  else if !c'.invB then some "inv"      -- last: "violated inv" means only `Inv` fails (C05's clause)
   else none
 
 /-- `fold(region)` replaces the region's ops by one block op at the returned point whose
 body holds exactly those ops with unchanged per-qudit order; all timelines unchanged
 after expanding that block. -/
 def validFold (b : Blocks) (c : Circ) (r : Region) (c' : Circ) (pt : Nat × Nat) : Option String :=
-  if !c'.invB then some "inv"
-  else if c'.radixes != c.radixes then some "radixes"
+  if c'.radixes != c.radixes then some "radixes"
   else match c'.cell pt.1 pt.2 with
   | none => some "no-op-at-returned-point"
   | some blk =>
@@ -115,6 +114,7 @@ def validFold (b : Blocks) (c : Circ) (r : Region) (c' : Circ) (pt : Nat × Nat)
           if k == pt.1 && o == blk then inner else [o])
         if !sameTimelines c.numQudits c.iter expanded then some "timelines"
         else if c'.numOps + inner.length != c.numOps + 1 then some "count"
+        else if !c'.invB then some "inv"
         else none
 
 end BqVerif.Circ
